@@ -241,6 +241,16 @@ Proof.
   cbn in H. discriminate.
 Qed.
 
+Theorem outside_known' : forall n hist final,
+  let c := C11Case n hist final in
+  known_C11 c = [] ->
+  ev_guard (run_events false (init_sys n) (c11_ops c)) = false ->
+  forallb inv_sys_b (run_trace false (init_sys n) (c11_ops c)) = true.
+Proof.
+  intros n hist final c Hk Hg. apply outside_known; [|exact Hg].
+  apply (known_nil_no_resurrect c Hk).
+Qed.
+
 (* with the tombstone lookup in filter_existing (requests/C11-fix-1.diff) the invariant holds for
    every history inside the envelope, whatever the order of pulls *)
 Lemma run_fixed_clean : forall ops S, ev_resurrect (run_events true S ops) = false.
